@@ -1,9 +1,9 @@
 (* HeaderJs.v - character-level model of the JavaScript derivation of the output header (rbql-js/rbql.js):
      unquote_string                                   (lines 109-120)
      column_info_from_text_span                       (lines 123-169)  = [info_js]
-     parse_root_bracket_level_text_spans              (lines 80-106)   = [split_spans]
+     parse_root_bracket_level_text_spans              (lines 81-106)   = [split_spans]
      adhoc_parse_select_expression_to_column_infos    (lines 172-183)  = [adhoc_infos]
-     replace_star_vars_for_header_parsing             (lines 1324-1340) = [star_hdr]
+     replace_star_vars_for_header_parsing             (lines 1324-1339) = [star_hdr]
      the header half of translate_select_expression (str_strip of the star-marked text, line 1377) and the call
      at line 1926                                                       = [infos_js]
      select_output_header                             (lines 1617-1672) = [select_output_header_js]
